@@ -19,6 +19,12 @@ use serde_json::{Value, json};
 
 pub const VERIF_DIR: &str = "/verif";
 
+/// Where evidence and replay files go: /verif, or `VERIF_OUT` for exploratory sweeps that must not touch the
+/// committed evidence (background runs with other seeds; never used by the registered commands).
+pub fn out_dir() -> String {
+    std::env::var("VERIF_OUT").unwrap_or_else(|_| VERIF_DIR.to_string())
+}
+
 #[derive(Clone, Copy, PartialEq, Eq, Debug)]
 pub enum Tier {
     Quick,
@@ -338,10 +344,10 @@ fn start_watchdog(id: &str) {
                     let id = WATCH_ID.lock().map(|g| g.clone()).unwrap_or_default();
                     let mut h = std::collections::hash_map::DefaultHasher::new();
                     (&tape, index, &phase).hash(&mut h);
-                    let path = format!("{VERIF_DIR}/replays/{id}-watchdog-{:08x}.json", h.finish() as u32);
+                    let path = format!("{}/replays/{id}-watchdog-{:08x}.json", out_dir(), h.finish() as u32);
                     let kind = if tape.is_empty() { "index" } else { "tape" };
                     let body = json!({"property": id, "kind": kind, "phase": phase, "tape": hex::encode(&tape), "index": index, "signature": "watchdog", "message": format!("a case of phase {phase} did not return within {} s", limit_ms / 1000)});
-                    let _ = std::fs::create_dir_all(format!("{VERIF_DIR}/replays"));
+                    let _ = std::fs::create_dir_all(format!("{}/replays", out_dir()));
                     let _ = std::fs::write(&path, serde_json::to_string_pretty(&body).unwrap_or_default());
                     // C13 ("decoding arbitrary bytes always terminates") and C04 ("every request gets a response") state
                     // termination themselves: there the deadline - four orders of magnitude above a normal case - is the
@@ -981,7 +987,7 @@ impl Runner {
             }
         }
         let mut exit = 0;
-        let _ = std::fs::create_dir_all(format!("{VERIF_DIR}/replays"));
+        let _ = std::fs::create_dir_all(format!("{}/replays", out_dir()));
         for v in &self.violations {
             if v.sig.starts_with("harness-error:") {
                 // an explicit self-check of the harness failed (signer vs reference verifier, rewrite not equivalent): inconclusive
@@ -991,7 +997,7 @@ impl Runner {
             }
             let mut h = std::collections::hash_map::DefaultHasher::new();
             v.replay.to_string().hash(&mut h);
-            let path = PathBuf::from(format!("{VERIF_DIR}/replays/{}-{}-{:08x}.json", self.id, sanitize(&v.sig), h.finish() as u32));
+            let path = PathBuf::from(format!("{}/replays/{}-{}-{:08x}.json", out_dir(), self.id, sanitize(&v.sig), h.finish() as u32));
             let mut body = v.replay.clone();
             body["property"] = json!(self.id);
             body["signature"] = json!(v.sig);
@@ -1055,8 +1061,8 @@ impl Runner {
             "wall_s": self.start.elapsed().as_secs_f64(),
             "violations": self.violations.len(),
         });
-        let _ = std::fs::create_dir_all(format!("{VERIF_DIR}/evidence"));
-        let path = format!("{VERIF_DIR}/evidence/{}.json", self.id);
+        let _ = std::fs::create_dir_all(format!("{}/evidence", out_dir()));
+        let path = format!("{}/evidence/{}.json", out_dir(), self.id);
         std::fs::write(&path, serde_json::to_string_pretty(&ev).unwrap()).expect("write evidence");
     }
 }
